@@ -22,6 +22,10 @@ hand out has passed the tests the documentation promises.
         the bound M and for a non-zero leading coefficient (so the relation
         really involves x); pslq is called with the tolerance and bound derived
         from the arguments
+  Q-R5  identify: a template placeholder that the template raises to a power is
+        substituted by a power-safe (parenthesised) operand
+  Q-R6  identify: the linear formula is built only for a relation that involves
+        at least one constant besides x
 """
 import ast
 
@@ -327,6 +331,72 @@ def check_identify(run, ix):
                 run.fail(F('Q-R4', 'identify', a, 'a formula is added even when none was built'))
 
 
+def check_templates(run, ix):
+    """Q-R5 / Q-R6.  identify pastes strings into templates such as '$y**2/$c**2'.  A placeholder that the
+    template raises to a power must be substituted by a power-safe operand (a constant written `e**3` pasted
+    into `$c**2` reads e**9), and the linear-relation formula is only built for a relation that involves at
+    least one constant besides x (the relation [1, 0, .., 0] says x-transformed is ~0 and prints as '0',
+    giving `log(1/0)`)."""
+    m = ix.module(IDENT)
+    templates = []
+    for name, value, st, g in m.toplevel_assigns:
+        if name == 'transforms' and isinstance(value, ast.List):
+            for e in value.elts:
+                if isinstance(e, ast.Tuple) and len(e.elts) == 3 and isinstance(e.elts[1], ast.Constant):
+                    templates.append(e.elts[1].value)
+    if len(templates) < 20:
+        raise AnalysisError('identify: template table not found')
+    powered = sorted(set(ph for t in templates for ph in ('$c', '$y') if ph + '**' in t))
+    f = ix.func(IDENT, 'identify')
+    # substitutions: chains of .replace(a, b) on the template variable
+    reps = []
+    for x in _walk_own(f.node):
+        if isinstance(x, ast.Call) and isinstance(x.func, ast.Attribute) and x.func.attr == 'replace' and \
+                len(x.args) == 2 and isinstance(x.args[0], ast.Constant):
+            reps.append(x)
+    for ph in powered:
+        if ph == '$y':
+            # $y receives the formula string built by pslqstring / quadraticstring: parenthesised there
+            ps = ix.func(IDENT, 'pslqstring')
+            wraps = any(isinstance(st, ast.If) and "'+' in s" in norm(st.test) and "'*' in s" in norm(st.test)
+                        for st in _walk_own(ps.node))
+            if wraps:
+                run.ok('Q-R5', "$y: pslqstring parenthesises any formula containing + or *")
+            else:
+                run.fail(F('Q-R5', 'pslqstring', 'return s', 'the linear formula is not parenthesised before it is '
+                           'pasted into templates that raise it to a power', line=ps.lineno))
+            continue
+        # every substitution chain that replaces '$c' must first replace '$c**' by a power-safe operand
+        chains = [x for x in reps if x.args[0].value == ph]
+        if not chains:
+            raise AnalysisError('identify: substitution of %s not found' % ph)
+        for x in chains:
+            inner = x.func.value
+            ok = False
+            cur = inner
+            while isinstance(cur, ast.Call) and isinstance(cur.func, ast.Attribute) and cur.func.attr == 'replace':
+                if isinstance(cur.args[0], ast.Constant) and cur.args[0].value == ph + '**' and \
+                        '_operand(' in norm(cur.args[1]) and 'True' in norm(cur.args[1]):
+                    ok = True
+                cur = cur.func.value
+            if ok:
+                run.ok('Q-R5', "%s** is substituted by a power-safe operand before %s" % (ph, ph))
+            else:
+                run.fail(F('Q-R5', 'identify', x, 'templates %s raise %s to a power, but the name is pasted as it is: '
+                           'a constant written as a power or a product changes its meaning (e**3**2 is e**9)'
+                           % ([t for t in templates if ph + '**' in t], ph)))
+    # Q-R6: pslqstring only for relations involving a constant
+    for st in _walk_own(f.node):
+        if isinstance(st, ast.Assign) and isinstance(st.value, ast.Call) and norm(st.value.func) == 'pslqstring':
+            rel = norm(st.value.args[0])
+            gt = ' and '.join(norm(g.test, 200) for g in ancestors_if(st, f.node))
+            if 'any(%s[1:])' % rel in gt:
+                run.ok('Q-R6', 'linear formula only for a relation with a non-zero constant coefficient')
+            else:
+                run.fail(F('Q-R6', 'identify', st, 'the linear formula is built even for the relation [k, 0, .., 0] '
+                           '(transformed x ~ 0), which prints as "0" and yields formulas such as log(1/0)'))
+
+
 def run(run, ix, tier):
     run.explanation = (
         'pslq, findpoly and identify promise properties of what they RETURN (bounded integer coefficients, '
@@ -344,3 +414,6 @@ def run(run, ix, tier):
     check_pslq(run, ix)
     check_findpoly(run, ix)
     check_identify(run, ix)
+    run.rule('Q-R5', floor=2)
+    run.rule('Q-R6', floor=1)
+    check_templates(run, ix)
